@@ -15,6 +15,7 @@ import (
 	"io"
 	"os"
 	"sync"
+	"sync/atomic"
 	"time"
 
 	"github.com/aptpod/iscp-go/transport"
@@ -47,7 +48,17 @@ type caseIn struct {
 	Lose    int              `json:"lose,omitempty"`    // concurrent cases: number of datagrams dropped
 }
 
-const watchdog = 60 * time.Second
+// watchdog bounds every call into the library. It starts generous (loaded machine) and shrinks once
+// calls have expired three times in a run: a change that makes the library hang must not turn the
+// whole run into hundreds of full-length waits (each expired call is already a direct violation).
+var watchdog = 20 * time.Second
+var watchdogExpired int32
+
+func noteExpiry() {
+	if atomic.AddInt32(&watchdogExpired, 1) >= 3 {
+		watchdog = 500 * time.Millisecond
+	}
+}
 
 func guarded(f func()) bool {
 	done := make(chan struct{})
@@ -56,6 +67,7 @@ func guarded(f func()) bool {
 	case <-done:
 		return true
 	case <-time.After(watchdog):
+		noteExpiry()
 		return false
 	}
 }
@@ -284,6 +296,7 @@ func runDgram(ci *caseIn) (string, map[string]interface{}, string) {
 	deadline := time.Now().Add(watchdog)
 	for b.ReceiveCalls() < int64(len(delivered))+1 {
 		if time.Now().After(deadline) {
+			noteExpiry()
 			return "", nil, "the datagram receive loop did not consume the delivered datagrams within the watchdog"
 		}
 		time.Sleep(50 * time.Microsecond)
